@@ -2,3 +2,8 @@
 //! they share no code with tz-rs and use different algorithms on purpose.
 pub mod cal;
 pub mod text;
+pub mod leap;
+pub mod rule;
+pub mod find;
+pub mod posix;
+pub mod zone;
